@@ -64,7 +64,7 @@ def check_delivery(world, only_reliable=True):
 
 
 def _keys(msgs):
-    return [(type(m).__name__[0], len(m), (m[:6] if isinstance(m, str) else m[:6].decode("latin1"))) for m in msgs]
+    return [(type(m).__name__[0], len(m), (m[:10] if isinstance(m, str) else m[:10].decode("latin1"))) for m in msgs]
 
 
 def check_tasks(world):
@@ -86,6 +86,11 @@ def drained_violations(world, label_filter=None):
         return out
     connected = all(world.sctp[s].state == "connected" for s in "AB")
     if not connected:
+        # nobody stopped the association and the fault history is far below any retransmission limit: an endpoint that
+        # is not connected at the healed terminal point has given up (or never came up) for good
+        if not any(op[0] == "stop" for step in world.spec.get("script", []) for op in step):
+            out.append(("liveness/association-lost", "association states at quiescence: A=%s B=%s" % (
+                world.sctp["A"].state, world.sctp["B"].state)))
         return out
     for side in "AB":
         s = world.sctp[side]
